@@ -19,7 +19,11 @@ CHECK_DEADLOCK FALSE
 def run(rep):
     d = C.subdir('c07')
     cases = d / 'tables.ndjson'
-    C.run_driver('d_tables.py', [cases])
+    modes = ['all', 'lazy:0', 'lazy:1', 'lazy:2'] + (['lazy:3', 'lazy:4', 'lazy:5'] if rep.tier == 'thorough' else [])
+    C.run_drivers_parallel([('d_tables.py', [d / f'tables-{k}.ndjson', m], {'hooks': False}) for k, m in enumerate(modes)])
+    with open(cases, 'w') as f:
+        for k in range(len(modes)):
+            f.write(open(d / f'tables-{k}.ndjson').read())
     recs = [json.loads(l) for l in open(cases)]
     r = C.tlc('C07_Tables', CFG, env={'CASES': cases}, timeout=600)
     if r.json is None:
@@ -27,17 +31,18 @@ def run(rep):
     if r.json['n'] != len(recs):
         raise C.MachineryError('C07: TLC saw a different number of cases')
     rep.add_tlc(r, traces=len(recs))
-    nrows = sum(len(t['rows']) for c in recs for t in c['tables'])
+    nrows = sum(len(t['rows']) for c in recs for t in c.get('tables', []))
     rep.cov['evaluations'] = nrows
     rep.cov['distinct_nontrivial'] = nrows
-    rep.cov['rule'] = ('every (logic, operator, value tuple) row of Model.truth_table for the 8 truth-functional '
+    rep.cov['rule'] = ('every (logic, operator, value tuple) row of Model.truth_table for the 8 truth-functional operators, asked in several histories (forward, reversed, again; logics imported on demand in 3+ orders), '
                        'operators of all registered logics; every row is distinct; non-trivial = all of them')
     rep.cov['exhaustive'] = True
-    rep.cov['logics'] = len(recs)
+    rep.cov['logics'] = len({c['logic'] for c in recs if c['logic']})
+    rep.cov['phases'] = modes
     rep.sample({'logic': recs[0]['logic'], 'table': recs[0]['tables'][2]})
     rep.assumptions += ['Semantics.tla transcribes the documented/literature tables correctly (cross-checked by C04/C08)']
     for f in r.json['bad']:
         sig = {'kind': 'table', 'clause': f['clause'], 'logic': f['logic'], 'operator': f['operator'],
                'inputs': list(f['inputs']), 'got': f['got'], 'want': f['want'],
-               'cell': f"{f['operator']}:{','.join(f['inputs'])}:{f['got']}"}
+               'cell': f"{f['operator']}:{','.join(map(str, f['inputs']))}:{f['got']}"}
         rep.violation(sig, f)
